@@ -1,3 +1,4 @@
+import Pm.Signal
 import Pm.Dev2Count
 import Pm.ClientStream
 import Pm.Dev2Timer
@@ -342,5 +343,60 @@ example (p : PassIn) (a : DevAcc) (nd : Bytes × Dev) :
 example : (daemonPass Pm.Daemon.Ex.w1 Pm.Daemon.Ex.pin).1.tmo = some 4999000 := by decide +kernel
 
 end daemonTimer
+
+
+/-! ## the sleep itself: `xpoll` and a caught signal (`libcommon/xpoll.c`, `Pm/Signal.lean`)
+
+`dev_post_poll` registers a timer (`tmout`); `_select_loop` hands it to `xpoll`, which converts it to milliseconds for `poll` and,
+when a caught signal (SIGHUP) interrupts the sleep, calls `poll` again with what is left. -/
+section xpoll
+open Pm.Daemon
+
+/-- **After an interruption the daemon never sleeps without limit while a timer is registered, and never longer than what is
+    left of it.**  For every registered time-out `t` and every moment `d` (µs after the sleep began) at which the signal is
+    caught: the value handed to the repeated `poll` is ≥ 0 and, in µs, at most `t − d` (0 when that has run out). -/
+theorem C04_xpoll_retry (t d : Nat) :
+    0 ≤ xpollRetryMsec (some t) d ∧ xpollRetryMsec (some t) d * 1000 ≤ ((t - d : Nat) : Int) := by
+  unfold xpollRetryMsec tvMsec
+  dsimp only
+  split
+  · refine ⟨Int.le_refl 0, ?_⟩
+    simp
+  · rename_i h
+    have hle : d ≤ t := by omega
+    have e : (t : Int) - (d : Int) = ((t - d : Nat) : Int) := by omega
+    rw [e]
+    generalize t - d = n
+    have h1 : Int.fdiv (n : Int) 1000000 = ((n / 1000000 : Nat) : Int) := by
+      rw [Int.fdiv_eq_ediv_of_nonneg _ (by omega)]; rfl
+    have h2 : Int.fmod (n : Int) 1000000 = ((n % 1000000 : Nat) : Int) := by
+      rw [Int.fmod_eq_emod_of_nonneg _ (by omega)]; rfl
+    rw [h1, h2]
+    have h3 : ((n % 1000000 : Nat) : Int) / 1000 = ((n % 1000000 / 1000 : Nat) : Int) := rfl
+    rw [h3]
+    constructor
+    · omega
+    · have := Nat.div_add_mod n 1000000
+      have := Nat.div_add_mod (n % 1000000) 1000
+      omega
+
+/-- without a registered timer the repeated sleep is unlimited again, as the first one was -/
+theorem C04_xpoll_retry_none (d : Nat) : xpollRetryMsec none d = -1 := rfl
+
+/-- **F32 (repaired by a `fix:` commit).**  Before the repair the remainder was not clamped: a timer of 600 ms and a signal
+    caught 1 µs after it ran out (timer slack: `poll` may still be asleep then) gave `poll` the time-out −1 — *no* time-out: the
+    daemon slept until unrelated traffic woke it, with a device time-out registered.  Found by the correspondence run on the
+    real `xpoll.c` under a simulated clock. -/
+theorem C04_xpoll_f32_counterexample : xpollRetryMsecOld (some 600000) 600001 = -1 ∧ xpollRetryMsec (some 600000) 600001 = 0 := by
+  decide +kernel
+
+/-- the pass in which that happens is otherwise the ordinary pass: same world afterwards, same lines but for the second
+    registration and the repeated `poll` -/
+theorem C04_hupPass_world (w : W) (d : Nat) (p : PassIn) : (hupPass w d p).1 = (daemonPass w p).1 := rfl
+
+example : xpollRetryMsec (some 2547000) 1273500 = 1273 ∧ xpollRetryMsec (some 600000) 599700 = 0 ∧
+    xpollRetryMsec (some 600000) 598000 = 2 := by decide +kernel
+
+end xpoll
 
 end Pm.Props.C04
